@@ -618,6 +618,13 @@ func runExt(c *core.Ctx, r *runner, target, W int, feedCFG func() bool) {
 			ordered = append(ordered, f)
 		}
 	}
+	// the explicit family is visited three times per cycle (its members are all distinct lists)
+	if _, ok := byClass["family:same-element-extracted-twice"]; ok {
+		fam := "family:same-element-extracted-twice"
+		n := len(ordered)
+		ordered = slices.Insert(ordered, 2*n/3, fam)
+		ordered = slices.Insert(ordered, n/3, fam)
+	}
 	classes = ordered
 	c.Set("shape_classes", classes)
 	outOfScope := map[string]int{}
